@@ -44,12 +44,14 @@ PROPS = {
             {"test": "TestC18Filter", "checks": 60000, "shards": 2},
             {"test": "TestC18Enum", "kind": "enum", "shards": 4},
             {"test": "TestC18Widthratio", "checks": 20000},
+            {"test": "TestC18WidthratioFloat", "checks": 20000},
             {"test": "TestC18WidthratioEnum", "kind": "enum"},
         ],
         "thorough": [
             {"test": "TestC18Filter", "checks": 3200000, "shards": 16},
             {"test": "TestC18Enum", "kind": "enum", "shards": 8},
             {"test": "TestC18Widthratio", "checks": 400000, "shards": 2},
+            {"test": "TestC18WidthratioFloat", "checks": 40000},
             {"test": "TestC18WidthratioEnum", "kind": "enum"},
         ],
         "assumptions": [
